@@ -74,6 +74,7 @@ type Pool struct {
 	URLs    []Op     `json:"urls"` // URL calls made after the request probes (C10)
 	RT      bool     `json:"rt"`   // round trip: build the URL of every dispatched route from its captured parameters
 	Link    bool     `json:"link"` // C08: record OPTIONS / HEAD / GET answers of the same path next to every served route
+	Dump    bool     `json:"dump"` // record the shape of the real tree after the battery (structural refinement, drift report)
 	TH      []Op     `json:"th"`   // requests handed to the bundled Trace helper (C18)
 }
 
